@@ -16,7 +16,14 @@ RULE = ('one case = one list of 1-6 materials (each 1-4 atoms with neutron data:
         'entries, ions; repeated materials; given as Formula objects built from strings, dicts, nested structures) with '
         'three wavelength arguments (scalar, length-1 vector, length-n vector; float / numpy scalar / int / list / array; in 4 % of the lists the scalar is a 0-d numpy array) '
         'and for each calculator three weight vectors (zeros, ones, 12-decade spread; float or int numpy arrays) with '
-        'densities >= 0, including zero total weight and zero density; the first weight vector is applied twice. '
+        'densities >= 0, including zero total weight and zero density; the first weight vector is applied twice; a quarter '
+        'of the float weight vectors carry a common factor 1e-15..1e12 and 12 % of the non-zero densities are 1e-15..1e-3. '
+        'One history case = 2-4 material OBJECTS built once and used in 3-5 successive calculators of the process at two '
+        'recurring wavelength arguments (the same argument objects; an array is sometimes overwritten in place), where '
+        'each later calculator takes materials derived from the live objects by n*f, f+g, f+=g (on the object and on a '
+        'copy), formula(f), renaming, assigning a density, change_table; compared with the direct route on the weighted '
+        'sum of the model multisets and on the Formula sum of the live objects; earlier calculators are applied again '
+        'after the later ones were built. '
         'distinct = distinct (per-material sorted atom keys, repetition pattern, zero pattern of each weight vector, '
         'rho == 0 pattern, wavelength kinds and lengths); every case is non-trivial (each compares computed numbers)')
 TECHNIQUE = ('runtime monitoring: differential monitor of two execution routes of the library (precomputed calculator vs '
@@ -24,7 +31,8 @@ TECHNIQUE = ('runtime monitoring: differential monitor of two execution routes o
              'nsf._sum_piece and nsf._calculate_scattering, sys.monitoring branch-reach counters')
 LEVEL_TEXT = ('Random material lists over all atoms with neutron data are evaluated through the composite calculator and '
               'through the direct route for scalar, length-1 and length-n wavelength arguments, and the three SLDs and '
-              'the output shapes are compared to 1e-10; only the sampled lists, weights, densities and wavelengths are '
+              'the output shapes are compared to 1e-10, also for material objects that were used in earlier calculators '
+              'and then scaled, added or extended; only the sampled lists, weights, densities and wavelengths are '
               'covered.')
 LEVEL_NOTE = ('Trusted: numpy; the direct route neutron_sld is the oracle the property names (its own correctness is C03/C04); '
               'Formula arithmetic is used literally for sum_i w_i*material_i and, on a mismatch, re-derived from the '
@@ -37,7 +45,10 @@ ASSUMPTIONS = ['weights are numpy arrays (the documented "vector of weights"; a 
                'tolerance 1e-10 relative; incoherent SLD additionally |d| <= 1e-7*(|rho_re|+rho_im) (DESIGN 3.7); real SLD '
                'additionally |d| <= 1e-13*sqrt(re^2+im^2+inc^2) (cancellation of Re b_c between atoms of opposite sign)',
                'vacuum cases are compared by value only (both routes return scalar zeros there)',
-               'wavelength 0.05..50 Angstrom, densities 0 or 1e-3..25 g/cm^3, weights 0 or 1e-6..1e6']
+               'wavelength 0.05..50 Angstrom, densities 0 or 1e-15..25 g/cm^3, weights 0 or 1e-21..1e18 (proportions 1e-6..1e6 '
+               'times a common factor 1e-15..1e12)',
+               'what a calculator built earlier returns after one of its material objects was extended in place (f += g), or '
+               'after the caller overwrote its wavelength array, is not stated: such calculators are not applied again']
 
 REL = 1e-10
 NAMES = ('sld_re', 'sld_im', 'sld_inc')
